@@ -482,8 +482,10 @@ class Sim:
                 out.append((i, o) if side == 'a' else (o, i))
         return sorted(out)
 
-    def establish(self, first='a', entry=0, host=1):
+    def establish(self, first='a', entry=0, host=1, both=False):
         self.apply(['acquire', first, entry, host])
+        if both:        # simultaneous initiation: two IKE_SAs with the same peer
+            self.apply(['acquire', self.other(first), entry, host + 3])
         self.flush()
         return bool(self.established('a')) and bool(self.established('b'))
 
